@@ -5,7 +5,7 @@ void reg_kdf() {}
 #if 0
 void reg_isap() {}
 #endif
-#ifndef HAVE_DRV_PRNG
+#if 0
 void reg_prng() {}
 #endif
 #ifndef HAVE_DRV_MASKED
